@@ -104,6 +104,15 @@ func drawBigS(c *core.Ctx, label string, n int) *big.Int {
 	return u
 }
 
+// scribble writes into a bit string that a read operation handed out (growing it, as Append does) and overwrites
+// what it held; the source it was read from must not change.
+func scribble(piece *boc.BitString) {
+	junk := boc.NewBitString(24)
+	junk.WriteUint(0xa5c33c, 24)
+	piece.Append(junk)
+	piece.WriteBit(true)
+}
+
 var seqCheck = &core.Check{Name: "c06/sequence", Quick: 40000, Thorough: 4000000, Fn: func(c *core.Ctx) error {
 	useCell := c.Bool("cell")
 	capacity := 1023
@@ -141,10 +150,10 @@ var seqCheck = &core.Check{Name: "c06/sequence", Quick: 40000, Thorough: 4000000
 		for i, want := range model {
 			got, err := raw.ReadBit()
 			if err != nil {
-				return fmt.Errorf("after failed write: bit %d of %d previously written bits unreadable: %v", i, len(model), err)
+				return fmt.Errorf("bit %d of %d previously written bits unreadable: %v", i, len(model), err)
 			}
 			if got != want {
-				return fmt.Errorf("after failed write: previously written bit %d changed", i)
+				return fmt.Errorf("previously written bit %d changed", i)
 			}
 		}
 		return nil
@@ -264,7 +273,7 @@ var seqCheck = &core.Check{Name: "c06/sequence", Quick: 40000, Thorough: 4000000
 				return fmt.Errorf("%s with %d of %d bits used: no error although %d bits do not fit", desc, len(model), capacity, len(add))
 			}
 			if e := verifyPrefix(); e != nil {
-				return fmt.Errorf("%s: %v", desc, e)
+				return fmt.Errorf("after the failed %s: %v", desc, e)
 			}
 			overflowed = true
 		}
@@ -458,6 +467,12 @@ var seqCheck = &core.Check{Name: "c06/sequence", Quick: 40000, Thorough: 4000000
 			if e := checkBS(fmt.Sprintf("%s at %d", desc, pos), got, model[pos:pos+n]); e != nil {
 				return e
 			}
+			if c.Intn("rbits.scribble", 3) == 0 {
+				scribble(&got)
+				if e := verifyPrefix(); e != nil {
+					return fmt.Errorf("after appending to the bit string returned by %s at %d: the source changed: %v", desc, pos, e)
+				}
+			}
 			pos += n
 		case 6:
 			n := fit(drawWidthBoundary(c, "rbuw", 257), 0)
@@ -547,6 +562,12 @@ var seqCheck = &core.Check{Name: "c06/sequence", Quick: 40000, Thorough: 4000000
 			got := tg.ReadRemainingBits()
 			if e := checkBS(fmt.Sprintf("%s at %d", desc, pos), got, model[pos:]); e != nil {
 				return e
+			}
+			if c.Intn("rrem.scribble", 3) == 0 {
+				scribble(&got)
+				if e := verifyPrefix(); e != nil {
+					return fmt.Errorf("after appending to the bit string returned by %s at %d: the source changed: %v", desc, pos, e)
+				}
 			}
 			pos = len(model)
 		case 13:
